@@ -573,12 +573,21 @@ func slowExchange(r *ev.Run) {
 			r.Violation(c, "shim-construction-fails-without-fault", err.Error(), nil)
 			return
 		}
+		// the shim also holds a hardware certificate that lapses two seconds into the long exchange: whatever the shim
+		// does about that, it does when it is its turn on the connection
+		nowS := uint64(time.Now().Unix())
+		lapsing := gen.MakeCert(gen.CertSpec{Key: k, KeyID: gen.YSSHCAKeyID(gen.KeyIDSpec{HW: true, Touch: 3, TransID: "lapsing000", Prins: []string{"u"}}), ValidAfter: nowS - 600, ValidBefore: nowS + 2, Principals: []string{"u"}})
+		if err := s.AddHardCert(lapsing, "lapsing"); err != nil {
+			r.Violation(c, "hardware-cert-with-held-key-refused", err.Error(), nil)
+			return
+		}
 		ag.SetPlan(func(_ int, req []byte) wire.Action {
 			if len(req) > 0 && req[0] == 13 {
 				return wire.Action{Kind: wire.Honest, Delay: 7 * time.Second}
 			}
 			return wire.Action{Kind: wire.Honest}
 		})
+		p0 := ag.Pipelined()
 		var wg sync.WaitGroup
 		var mu sync.Mutex
 		var bad []string
@@ -628,6 +637,10 @@ func slowExchange(r *ev.Run) {
 		}
 		if len(bad) > 0 {
 			r.Violation(c, "wrong-reply:slow-exchange", bad[0], bad)
+			return
+		}
+		if n := ag.Pipelined() - p0; n > 0 {
+			r.Violation(c, "upstream-request-pipelined:slow-exchange", fmt.Sprintf("%d requests reached the underlying agent while the seven-second exchange was pending (a hardware certificate lapsed during it)", n), nil)
 			return
 		}
 		r.Count("seven-second exchange with early queuers, then an idle period: every reply right", 1)
